@@ -101,6 +101,7 @@ InvViol(W, St) ==
     (IF C06_StarvedNeverRuns(St) THEN {} ELSE {<<"inv", "C06_StarvedNeverRuns">>}) \cup
     (IF C06_CancelClosure(St) THEN {} ELSE {<<"inv", "C06_CancelClosure">>}) \cup
     (IF C07_OneBranch(St) THEN {} ELSE {<<"inv", "C07_OneBranch">>}) \cup
+    (IF C07_ResolvedAtSubmission(W, St) THEN {} ELSE {<<"inv", "C07_ResolvedAtSubmission">>}) \cup
     (IF C19_ClosedLoop(St) THEN {} ELSE {<<"inv", "C19_ClosedLoop">>})
 
 EdgeViol(A, Bs) ==
@@ -112,6 +113,7 @@ DrawOf(r) == IF \E i \in 1..Len(r.draws) : r.draws[i].fn = "choices"
              THEN r.draws[CHOOSE i \in 1..Len(r.draws) : r.draws[i].fn = "choices"].res ELSE 0
 Binding(r, L) ==
     [ draw |-> DrawOf(r),
+      upd |-> IF "upd" \in DOMAIN r THEN r.upd ELSE FALSE,
       newg |-> NewGraphIds(r.post),
       fuzz |-> IF r.ty = E_PLACEMENT /\ r.t <= Len(L.ts) THEN L.ts[r.t].rem ELSE 0,
       decs |-> IF "sched" \in DOMAIN r THEN r.sched ELSE [rt |-> 0, decs |-> <<>>],
@@ -237,7 +239,8 @@ ReaderViol(St) ==
       (IF \A t \in 1..NT(St) : St.ts[t].st = COMPLETED =>
             \E i \in 1..Len(rd.tasks) : LET r == rd.tasks[i] IN
                 /\ r.t = t /\ r.comp = St.ts[t].fin /\ r.rel = St.ts[t].rel /\ r.dl = St.ts[t].dl
-                /\ r.missed = (St.ts[t].fin > St.ts[t].dl) /\ ~r.cancelled /\ r.nplace >= 1 /\ r.ptime = St.ts[t].start
+                /\ r.missed = (St.ts[t].fin > St.ts[t].dl) /\ ~r.cancelled /\ r.nplace >= 1
+                /\ (r.ptime = St.ts[t].start \/ (St.ts[t].ppool # 0 /\ r.ptime >= St.ts[t].start))   \* migrated: last placement = the migration
        THEN {} ELSE {<<"reader", "completed_task">>}) \cup
       (IF \A i \in 1..Len(rd.tasks) : LET r == rd.tasks[i] IN r.t # 0 =>
             /\ (r.cancelled => St.ts[r.t].st = CANCELLED)
